@@ -90,7 +90,10 @@ pub fn faithfulness(
                 bad.push((
                     id,
                     format!("resolve-panic/{}", truncate(&p, 60)),
-                    format!("generation succeeded but resolve_type_path({id}) panics: {}", truncate(&p, 120)),
+                    format!(
+                        "generation succeeded but resolve_type_path({id}) panics: {}",
+                        truncate(&p, 120)
+                    ),
                 ));
                 continue;
             }
@@ -138,7 +141,13 @@ pub fn check_case(case: &Case, ctx: &mut Ctx, ids: Option<&[u32]>) {
     let registry = match case.registry() {
         Ok(r) => r,
         Err(e) => {
-            ctx.note(format!("de-duplication failed: {} (reported by C04/C10)", truncate(&e, 60)), 1);
+            ctx.note(
+                format!(
+                    "de-duplication failed: {} (reported by C04/C10)",
+                    truncate(&e, 60)
+                ),
+                1,
+            );
             return;
         }
     };
@@ -154,11 +163,17 @@ pub fn check_case(case: &Case, ctx: &mut Ctx, ids: Option<&[u32]>) {
         Faith::GenErr(e) => {
             // not a success: C01 says nothing; C10 owns "generation never fails on well-formed input"
             ctx.exec(1);
-            ctx.note(format!("generation error {} (reported by C10)", e.name()), 1);
+            ctx.note(
+                format!("generation error {} (reported by C10)", e.name()),
+                1,
+            );
         }
         Faith::GenPanic(m) => {
             ctx.exec(1);
-            ctx.note(format!("generation panic `{}` (reported by C10)", truncate(&m, 60)), 1);
+            ctx.note(
+                format!("generation panic `{}` (reported by C10)", truncate(&m, 60)),
+                1,
+            );
         }
         Faith::Unparsable(e) => {
             ctx.exec(1);
@@ -177,7 +192,12 @@ pub fn check_case(case: &Case, ctx: &mut Ctx, ids: Option<&[u32]>) {
         } => {
             ctx.exec(executions);
             for (_, sig, detail) in bad {
-                ctx.violation(format!("C01/{sig}"), detail, case.replay("C01"), case.reg.size());
+                ctx.violation(
+                    format!("C01/{sig}"),
+                    detail,
+                    case.replay("C01"),
+                    case.reg.size(),
+                );
             }
             ctx.outcome(&(crate::settings::squash(&tokens), kinds));
         }
@@ -222,22 +242,41 @@ pub fn run(tier: &str, seed: u64) -> i32 {
                 if !thorough && s.depth >= 2 && sname != "faithful" {
                     continue;
                 }
-                let case = Case::new(RegSrc::Prog(prog.clone()), spec.clone(), format!("D-arms {pos} settings {sname}"));
+                let case = Case::new(
+                    RegSrc::Prog(prog.clone()),
+                    spec.clone(),
+                    format!("D-arms {pos} settings {sname}"),
+                );
                 check_case(&case, ctx, None);
             }
             // one name per shortcut visible in the code: user types that are called like prelude types
             if s.depth <= 1 {
-                for (which, name) in [(D_N, "Cow"), (D_G, "Cow"), (D_N, "Option"), (D_G, "Option"), (D_G, "Vec"), (D_N, "N1")] {
+                for (which, name) in [
+                    (D_N, "Cow"),
+                    (D_G, "Cow"),
+                    (D_N, "Option"),
+                    (D_G, "Option"),
+                    (D_G, "Vec"),
+                    (D_N, "N1"),
+                ] {
                     let mut p = prog.clone();
                     p.defs[which].name = name.to_string();
-                    let case = Case::new(RegSrc::Prog(p), settings[0].1.clone(), format!("D-arms {pos}, helper type named {name}"));
+                    let case = Case::new(
+                        RegSrc::Prog(p),
+                        settings[0].1.clone(),
+                        format!("D-arms {pos}, helper type named {name}"),
+                    );
                     check_case(&case, ctx, None);
                 }
             }
         }
     });
     report.add(st);
-    for st in crate::checks::families::generic_and_family_stats("C01", thorough, seed, true, &|c, ctx| check_case(c, ctx, None)) {
+    for st in
+        crate::checks::families::generic_and_family_stats("C01", thorough, seed, true, &|c, ctx| {
+            check_case(c, ctx, None)
+        })
+    {
         report.add(st);
     }
     let g = crate::graph::quick_graph(if thorough { 3 } else { 2 });
@@ -249,7 +288,11 @@ pub fn run(tier: &str, seed: u64) -> i32 {
     report.add(explore(&g, &gb, seed, |s, ctx| {
         let mut spec = SettingsSpec::faithful();
         spec.root = "root".into();
-        check_case(&Case::new(RegSrc::Prog(s.program()), spec, "D-graph"), ctx, None);
+        check_case(
+            &Case::new(RegSrc::Prog(s.program()), spec, "D-graph"),
+            ctx,
+            None,
+        );
     }));
     // D-chain: the Polkadot registry (de-duplicated, as every real user does) and every single-id closure
     let mut chain: Vec<Case> = vec![];
@@ -259,7 +302,11 @@ pub fn run(tier: &str, seed: u64) -> i32 {
             // Polkadot has modules called `types`
             spec.root = "runtime_types".into();
         }
-        let mut c = Case::new(RegSrc::Polkadot { retain: None }, spec.clone(), format!("D-chain full, settings {sname}"));
+        let mut c = Case::new(
+            RegSrc::Polkadot { retain: None },
+            spec.clone(),
+            format!("D-chain full, settings {sname}"),
+        );
         c.dedup = true;
         chain.push(c);
         if !thorough {
@@ -270,7 +317,11 @@ pub fn run(tier: &str, seed: u64) -> i32 {
     for id in 0..n {
         let mut spec = SettingsSpec::faithful();
         spec.root = "runtime_types".into();
-        let mut c = Case::new(RegSrc::Polkadot { retain: Some(id) }, spec, format!("D-chain retain({id})"));
+        let mut c = Case::new(
+            RegSrc::Polkadot { retain: Some(id) },
+            spec,
+            format!("D-chain retain({id})"),
+        );
         c.dedup = true;
         chain.push(c);
     }
@@ -295,7 +346,10 @@ pub fn run(tier: &str, seed: u64) -> i32 {
         "registries are produced by the SPM elaborator, which is compared entry-for-entry with real scale-info on the conformance corpus".into(),
         "the interpreter's table of external paths (core/alloc/codec) is written from their documentation".into(),
     ];
-    report.extra.insert("settings_explored".into(), json!(settings.iter().map(|s| s.0.clone()).collect::<Vec<_>>()));
+    report.extra.insert(
+        "settings_explored".into(),
+        json!(settings.iter().map(|s| s.0.clone()).collect::<Vec<_>>()),
+    );
     report.finish()
 }
 
@@ -304,7 +358,6 @@ pub fn replay(case: &Case) -> Vec<Violation> {
     check_case(case, &mut ctx, None);
     ctx.violations
 }
-
 
 /// Thorough tier: enumerated encodings of every registry id are decoded with the REAL generated
 /// type (rustc + parity-scale-codec derives), must consume all input and re-encode identically.
@@ -329,7 +382,11 @@ pub fn roundtrip_tier() -> Result<Stats, String> {
     let (all, _, _) = enumerate(&g, 2, 1_000_000);
     for (_, s) in &all {
         // recursive generics do not compile with the codec derive (known finding of C02)
-        if s.nodes.iter().any(|k| *k == crate::graph::NodeKind::GenericStruct) && s.cyclic_from(0) {
+        if s.nodes
+            .iter()
+            .any(|k| *k == crate::graph::NodeKind::GenericStruct)
+            && s.cyclic_from(0)
+        {
             continue;
         }
         progs.push(("D-graph".into(), s.program()));
@@ -349,7 +406,10 @@ pub fn roundtrip_tier() -> Result<Stats, String> {
                 continue;
             }
             let prog = s.program();
-            if s.insts.iter().any(|a| coincidence(&prog.defs[G_D], a, &prog).is_err()) {
+            if s.insts
+                .iter()
+                .any(|a| coincidence(&prog.defs[G_D], a, &prog).is_err())
+            {
                 continue;
             }
             // self references of a generic definition do not compile with the codec derive
@@ -377,11 +437,15 @@ pub fn roundtrip_tier() -> Result<Stats, String> {
             let en = Enumerator { reg: &reg, cap: 8 };
             let mut tests = vec![];
             for id in 0..reg.types.len() as u32 {
-                let Some(encs) = en.encodings(id, 3) else { continue };
+                let Some(encs) = en.encodings(id, 3) else {
+                    continue;
+                };
                 if encs.is_empty() {
                     continue;
                 }
-                let Ok(Ok(path)) = resolve_path(&reg, &settings, id) else { continue };
+                let Ok(Ok(path)) = resolve_path(&reg, &settings, id) else {
+                    continue;
+                };
                 tests.push((id, path, encs));
             }
             let case = Case::new(RegSrc::Prog(prog.clone()), profile.clone(), "roundtrip");
@@ -416,7 +480,10 @@ pub fn roundtrip_tier() -> Result<Stats, String> {
         wall_s: res.wall_s,
         ..Default::default()
     };
-    st.notes.insert("encodings decoded with real compiled types".into(), res.decodes);
+    st.notes.insert(
+        "encodings decoded with real compiled types".into(),
+        res.decodes,
+    );
     st.samples = cases
         .iter()
         .take(2)
@@ -424,7 +491,12 @@ pub fn roundtrip_tier() -> Result<Stats, String> {
         .collect();
     let mut by: std::collections::BTreeMap<String, (u64, Violation)> = Default::default();
     let mut add = |sig: String, detail: String, replay: serde_json::Value, size: usize| {
-        let v = Violation { sig: sig.clone(), detail, replay, size };
+        let v = Violation {
+            sig: sig.clone(),
+            detail,
+            replay,
+            size,
+        };
         match by.get_mut(&sig) {
             Some((n, cur)) => {
                 *n += 1;
@@ -442,7 +514,13 @@ pub fn roundtrip_tier() -> Result<Stats, String> {
         let class = f.message.split(' ').nth(1).unwrap_or("failure").to_string();
         add(
             format!("C01/rustc-roundtrip/{class}"),
-            format!("id {} of a {} case: {} - module: {}", f.id, c.label, f.message, truncate(&c.tokens, 300)),
+            format!(
+                "id {} of a {} case: {} - module: {}",
+                f.id,
+                c.label,
+                f.message,
+                truncate(&c.tokens, 300)
+            ),
             c.replay.clone(),
             c.tokens.len(),
         );
@@ -450,13 +528,22 @@ pub fn roundtrip_tier() -> Result<Stats, String> {
     for e in &res.compile_errors {
         let c = &cases[e.case];
         // compile errors are C02's subject; they are noted here, not reported as C01 violations
-        st.notes.entry(format!("modules that do not compile ({}; reported by C02)", e.code)).and_modify(|n| *n += 1).or_insert(1);
+        st.notes
+            .entry(format!(
+                "modules that do not compile ({}; reported by C02)",
+                e.code
+            ))
+            .and_modify(|n| *n += 1)
+            .or_insert(1);
         let _ = c;
     }
     st.violations = by
         .into_values()
         .map(|(n, mut v)| {
-            v.detail = format!("{} ({n} decodes fail this way; smallest module shown)", v.detail);
+            v.detail = format!(
+                "{} ({n} decodes fail this way; smallest module shown)",
+                v.detail
+            );
             v
         })
         .collect();
